@@ -30,10 +30,35 @@ def generic_edge(it, dims, err_len=2, cls="BaseEdge"):
     return edge, err, W, Js, gs
 
 
-def contributions_obligation(dims, cls="BaseEdge"):
+def builtin_edge(it, cfg):
+    """A built-in edge of configuration cfg with its own calc_error / calc_jacobians (evaluated once, up front, as the reference)."""
+    from ..algebra import sym_config, make_edge
+    from ..assembly import sym_symmetric
+    from ..algebra import CDIM
+    p1, p2, z, off = sym_config(cfg, unit=True)
+    edge = make_edge(it, cfg, p1, p2, z, off, info=sym_mat("W", CDIM[cfg[3]], CDIM[cfg[3]]))
+    gs = [Poly.var("g0"), Poly.var("g1")]
+    for v, g in zip(ga(edge, "vertices"), gs):
+        sa(v, "gradient_index", g)
+    err = it.call_method(edge, "calc_error", [])
+    Js = it.call_method(edge, "calc_jacobians", [])
+    err = Arr(list(err.data), 1)
+    Js = [Arr([list(r) for r in J.data], 2) for J in Js]
+    W0 = ga(edge, "information")
+    return edge, err, Arr([list(r) for r in W0.data], 2), Js, gs
+
+
+def contributions_obligation(dims, cls="BaseEdge", cfg=None):
     """C03-a: calc_chi2_gradient_hessian returns exactly {(g_k, e^T W J_k)} and {((g_i,g_j), J_i^T W J_j)} for i<=j."""
     def fn(it):
-        edge, err, W, Js, gs = generic_edge(it, dims, cls=cls)
+        if cfg is not None:
+            edge, err, W, Js, gs = builtin_edge(it, cfg)
+        else:
+            edge, err, W, Js, gs = generic_edge(it, dims, cls=cls)
+        dims_ = dims if cfg is None else [J.shape[1] for J in Js]
+        return check(it, edge, err, W, Js, gs, dims_)
+
+    def check(it, edge, err, W, Js, gs, dims):
         res = it.call_method(edge, "calc_chi2_gradient_hessian", [])
         if isinstance(res, Obj) and getattr(res, "tuple_fields", None):
             res = it.iterate(res, None)          # a NamedTuple result is still a 3-tuple for every consumer
@@ -97,7 +122,18 @@ def contribution_tasks(run_, pkg, tier, prefix="C03-a"):
     tasks = []
     fn = pkg.method("BaseEdge", "calc_chi2_gradient_hessian")
     classes = ["BaseEdge"] + [c for c in pkg.subclasses("BaseEdge") if pkg.own_method(c, "calc_chi2_gradient_hessian")]
+    from ..algebra import CONFIGS, cfg_name
     for cls in classes:
+        if cls != "BaseEdge" and pkg.lookup(cls, "__init__") != pkg.lookup("BaseEdge", "__init__"):
+            # a class with its own constructor and its own contribution code (a built-in edge kind that specialises the template):
+            # checked on its real configurations, against its own error and Jacobians
+            for cfg in CONFIGS:
+                if cfg[0] != cls:
+                    continue
+                key = "%s/%s.calc_chi2_gradient_hessian/%s" % (prefix, cls, cfg_name(cfg))
+                if run_.wants(key):
+                    tasks.append((key, "%s-contributions" % prefix, contributions_obligation(None, cls, cfg), "%s:%d" % (fn._gs_module, fn.lineno)))
+            continue
         for dims in (ARITIES_QUICK if tier == "quick" else ARITIES_THOROUGH):
             key = "%s/%s.calc_chi2_gradient_hessian/dims=%s" % (prefix, cls, "x".join(map(str, dims)))
             if run_.wants(key):
@@ -146,6 +182,11 @@ def run(run_, pkg, tier):
         key = "C03-bc/assembly/%s" % scn.name
         if run_.wants(key):
             tasks.append((key, "C03-bc-assembly", assembly_obligation(scn), "%s:%d" % (fn._gs_module, fn.lineno)))
+    from ..assembly import real_edges_obligation
+    for kind, fx, ffp in (("SE2", (), True), ("SE2", (1,), False), ("R2", (), False)):
+        key = "C03-bc/assembly/real-edges-%s/%s" % (kind, "fix-first" if ffp else "fixed=%s" % list(fx))
+        if run_.wants(key):
+            tasks.append((key, "C03-bc-assembly", real_edges_obligation(kind, fx, ffp), "%s:%d" % (fn._gs_module, fn.lineno)))
     for first, second in SEQUENCES:
         key = "C03-bc/assembly-sequence/%s->%s" % (first.name, second.name)
         if run_.wants(key):
